@@ -7,11 +7,11 @@ _ENV = {"ASAN_OPTIONS": "quarantine_size_mb=4"}
 
 HARNESSES = [
     # sequential half of C17: all call histories on one thread
-    dict(name="traceseq", src=["traceseq.c"], variant="asan", deadline={"quick": 240, "thorough": 1500}, env=_ENV),
+    dict(name="traceseq", src=["traceseq.c"], variant="asan", deadline={"quick": 240, "thorough": 1500}, env=_ENV, fallback_cflags=["-DNO_WHITEBOX"]),
     # same model on the Debug build (the library's own AWS_PRECONDITION / POSTCONDITION are live in the
     # tracer's hash tables and in allocator.c), 3 slots
     dict(name="traceseq-dbg", src=["traceseq.c"], variant="asan-dbg", tiers=["thorough"], args=["--slots", "3"],
-         deadline={"thorough": 600}, env=_ENV),
+         deadline={"thorough": 600}, env=_ENV, fallback_cflags=["-DNO_WHITEBOX"]),
     # concurrent half: 2-4 threads on one tracer over a LIFO parent, every interleaving at the tracer mutex / atomic counter
     dict(name="tracemt", src=["tracemt.c"], variant="sched", wrap=True, deadline={"quick": 150, "thorough": 1500}),
     # free-running ThreadSanitizer twin of the scenario bodies (DESIGN 4.5): no wrapping, OS scheduler, decides nothing;
